@@ -596,12 +596,12 @@ def gen_workflow(rnd):
                 ck = rnd.random()
                 if ck < 0.6:
                     ver = rnd.choice(['v4.1.1', 'v3.5.2', 'v4'])
-                    extra = rnd.choice(['', '', ' pinned'])
+                    extra = ''
                     gap1, gap2 = rnd.choice([' ', '  ']), rnd.choice([' ', '', '  '])
                     out.w(gap1 + '#' + gap2 + ver + extra)
                     if extra:
                         cls.add('gha-comment-extra-words')
-                    doc.declared.append({'name': a, 'spec': ver, 'hash': h, 'start': s, 'end': e, 'classes': cls, 'token': (s, e), 'comment': ver + extra})
+                    doc.declared.append({'name': a, 'spec': ver, 'hash': h, 'start': s, 'end': e, 'classes': cls, 'token': (s, e), 'comment': ver + extra, 'comment_end': out.mark()})
                 else:
                     doc.declared.append({'name': a, 'spec': None, 'hash': h, 'start': s, 'end': e, 'classes': cls | {'gha-hash-only'}, 'token': (s, e)})
                 out.w(nl)
